@@ -279,6 +279,15 @@ pub fn corpus(deep: bool) -> Vec<String> {
               "exists Y (q(X, Y)) -> exists X (p(X))", "p(X) -> forall X Y (q(X, Y))", "forall X Y (q(X, Y)) <- p(Y)", "exists X$i Y$i (q(X$i, Y$i)) and p(X)", "exists X Y$i (q(X, Y$i)) and p(Y)"] {
         out.push(t.to_string());
     }
+    // unguarded quantifiers: non-trivial only when an extent may be co-finite (evaluated by pure.rs)
+    for t in ["forall X (p(X))", "exists X (p(X) -> q(X))", "exists X (p(X) <- q(X))", "exists X (p(X) <-> q(X))", "forall X (p(X) or q(X))", "forall X (p(X)) or forall X (q(X))", "forall X (p(X) or q)", "exists X (p(X) -> q)", "exists X (q -> p(X))",
+              "forall X (p(X)) -> exists X (q(X))", "not forall X (p(X))", "not exists X (not p(X))", "forall X (not not p(X))", "not not forall X (p(X))", "forall X (p(X) -> q(X)) -> (forall X (p(X)) -> forall X (q(X)))", "forall X exists Y (q(X, Y))",
+              "exists Y forall X (q(X, Y))", "forall X (exists Y (q(X, Y)) -> p(X))", "forall X Y (q(X, Y) or p(X))", "forall X (p(X) or not p(X))", "exists X (p(X) or not p(X))", "forall X (p(X) -> #false)", "exists X (p(X) -> #false)", "forall X (X = 0 or p(X))",
+              "forall X (X != a -> p(X))", "exists X (X != 0 and X != 1 and not p(X))", "forall X Y (X = Y or q(X, Y))", "forall X (p(X) and q(X))", "forall X (p(X)) and forall X (q(X))", "exists X (p(X) and q)", "forall X$i (p(X$i))", "forall X$s (p(X$s) or q(X$s))",
+              "exists X$i (p(X$i) -> q(X$i))", "forall X (p(X) <-> q(X))", "forall X (p(X) <-> q(X)) -> (forall X (p(X)) <-> forall X (q(X)))", "exists X (forall Y (q(X, Y)) -> p(X))", "forall X (p(X) <- q(X)) and exists X (not q(X))",
+              "forall Y exists X (p(X) <- q(Y) and X != Y)", "not exists X (p(X) -> q(X))", "exists X (not p(X) -> q(X))", "exists X (p(X) -> exists Y (q(X, Y) -> p(Y)))"] {
+        out.push(t.to_string());
+    }
     // comparison chains next to plain equations that share a term with them (a chain `V = t < u` is not a definition of V)
     for t in ["exists X$i Y$i (X$i = Z and Y$i = Z < 3 and p(Y$i))", "exists X Y (X = Z and Y = Z != 1 and q(X, Y))", "exists Y$i (Y$i = Z < 1 and p(Y$i))", "forall X$i Y$i (X$i = Z and Y$i = Z <= 0 -> q(X$i, Y$i))",
               "exists X (X = Y = 1 and p(X))", "exists X$i Y$i (X$i = N$i + 1 and Y$i = N$i + 1 > 1 and q(X$i, Y$i))", "exists X Y (Y = Z < a and X = Z and q(Y, X))", "exists X Y (X = Z and Z = Y < 1 and q(X, Y))",
@@ -359,7 +368,7 @@ pub fn check(deep: bool, stats: &mut SimpStats, fails: &mut Vec<Failure>) {
     let mut inputs: Vec<(String, fol::Formula)> = Vec::new();
     for t in &corpus {
         match fol::Formula::from_str(t) {
-            Ok(f) => { if quantified_variables(&f) > 12 || exactly_evaluable(&f) { inputs.push((t.clone(), f)); } else { stats.skipped_inexact += 1; } }
+            Ok(f) => { if quantified_variables(&f) > 12 || exactly_evaluable(&f) || pure_small(&f) { inputs.push((t.clone(), f)); } else { stats.skipped_inexact += 1; } }
             Err(_) => {}
         }
     }
@@ -421,9 +430,14 @@ pub fn check(deep: bool, stats: &mut SimpStats, fails: &mut Vec<Failure>) {
                 // the long formulas are in the corpus for the pass count of the fixpoint strategy; evaluating dozens of nested
                 // quantifiers is exponential, so only the checks above and the idempotence check apply to them
                 if quantified_variables(fin) > 12 { return None; }
-                if !exactly_evaluable(fout) { return Some(Failure { property: "skip", input: String::new(), detail: String::new() }); }
-                let (ein, eout) = (cheapest_first(fin), cheapest_first(fout));
                 let seed = src.bytes().fold(0xcbf29ce484222325u64, |h, b| (h ^ b as u64).wrapping_mul(0x100000001b3));
+                // interpretations with co-finite extents (pure.rs): exact for formulas without arithmetic and order comparisons
+                let pure = pure_small(fin) && pure_small(fout);
+                if pure {
+                    if let Some(d) = crate::pure::first_difference(fin, fout, classical, if deep { 40 } else { 12 }, seed) { return Some(Failure { property: "C07", input: format!("{what}: {src}"), detail: d }); }
+                }
+                if !exactly_evaluable(fin) || !exactly_evaluable(fout) { return if pure { None } else { Some(Failure { property: "skip", input: String::new(), detail: String::new() }) }; }
+                let (ein, eout) = (cheapest_first(fin), cheapest_first(fout));
                 for m in sample_interpretations(&uni, n_interp, seed) {
                     let m = if classical { Ht { here: m.there.clone(), there: m.there, consts: m.consts } } else { m };
                     let ev = Eval { dom: &dom, ht: &m };
@@ -453,11 +467,14 @@ pub fn check(deep: bool, stats: &mut SimpStats, fails: &mut Vec<Failure>) {
 // ---------------------------------------------------------------------------------------------------------------------
 // C05: gamma
 
+/// pure (pure.rs) and small enough for the exact finite evaluation with co-finite extents
+pub fn pure_small(f: &fol::Formula) -> bool { crate::pure::is_pure(f) && crate::pure::variable_count(f) <= 3 }
+
 pub fn check_gamma(deep: bool, stats: &mut SimpStats, fails: &mut Vec<Failure>) {
     let corpus = corpus(deep);
     let mut inputs: Vec<(String, fol::Formula)> = Vec::new();
     for t in &corpus {
-        if let Ok(f) = fol::Formula::from_str(t) { if quantified_variables(&f) > 12 { continue; } if exactly_evaluable(&f) { inputs.push((t.clone(), f)); } else { stats.skipped_inexact += 1; } }
+        if let Ok(f) = fol::Formula::from_str(t) { if quantified_variables(&f) > 12 { continue; } if exactly_evaluable(&f) || pure_small(&f) { inputs.push((t.clone(), f)); } else { stats.skipped_inexact += 1; } }
     }
     // predicates whose names begin with the letters gamma puts in front of a name: the copies of p and of hp stay apart
     for t in ["hp -> p", "p and not hp", "tp or not p", "hp(1) <-> p(1)", "forall X (hp(X) -> p(X))", "exists X (tq(X) and not q(X))", "hhp -> (hp -> p)", "t and not h", "not not tp <- p", "thp or not htp", "p -> tp", "hq(a) or not q(a)",
@@ -490,9 +507,13 @@ pub fn check_gamma(deep: bool, stats: &mut SimpStats, fails: &mut Vec<Failure>) 
             let ok = (q.symbol.starts_with('h') || q.symbol.starts_with('t')) && preds_in.contains(&(q.symbol[1..].to_string(), q.arity));
             if !ok { return Some(Failure { property: "C05", input: format!("{what}: {src}"), detail: format!("gamma formula `{fout}` mentions {}/{}, which is not the h- or t-copy of a predicate of the input", q.symbol, q.arity) }); }
         }
-        if !exactly_evaluable(fout) { return Some(Failure { property: "skip", input: String::new(), detail: String::new() }); }
-        let (ein, eout) = (cheapest_first(fin), cheapest_first(fout));
         let seed = src.bytes().fold(0xcbf29ce484222325u64, |h, b| (h ^ b as u64).wrapping_mul(0x100000001b3));
+        let pure = pure_small(fin) && pure_small(fout);
+        if pure {
+            if let Some(d) = crate::pure::first_gamma_difference(fin, fout, if deep { 60 } else { 20 }, seed) { return Some(Failure { property: "C05", input: format!("{what}: {src}"), detail: d }); }
+        }
+        if !exactly_evaluable(fin) || !exactly_evaluable(fout) { return if pure { None } else { Some(Failure { property: "skip", input: String::new(), detail: String::new() }) }; }
+        let (ein, eout) = (cheapest_first(fin), cheapest_first(fout));
         for m in sample_interpretations(&uni, n_interp, seed) {
             let mut there = crate::dom::Atoms::new();
             for (p, a) in &m.here { there.insert((format!("h{p}"), a.clone())); }
